@@ -6,6 +6,7 @@ import (
 	"io"
 	"math"
 	"os"
+	"sort"
 	"sync"
 	"time"
 
@@ -453,14 +454,17 @@ func (fs *fsMutable) ReadDir(
 		return
 	}
 
-	var i uint64 = 1
-	for _, c := range children {
-		i++
-		if i < uint64(offset) {
-			continue
-		}
-		child := *c
-		child.Offset = fuseops.DirOffset(i) // This is where dirOffset matters..
+	// entries are numbered in a stable order (by inode), so that a listing resumed at the offset
+	// of the last entry returned carries on with the next one
+	inodes := make([]fuseops.InodeID, 0, len(children))
+	for id := range children {
+		inodes = append(inodes, id)
+	}
+	sort.Slice(inodes, func(i, j int) bool { return inodes[i] < inodes[j] })
+
+	for i := offset; i < len(inodes); i++ {
+		child := *children[inodes[i]]
+		child.Offset = fuseops.DirOffset(i + 1) // the offset of the entry following this one
 		n := fuseutil.WriteDirent(op.Dst[op.BytesRead:], child)
 		if n == 0 {
 			break
